@@ -134,6 +134,19 @@ func c20Entries() []c20Entry {
 	padd("DeleteGraph", "name", "benigngraph", func(env *c20Env, s string) { env.pgdb.DeleteGraph(s) })
 	padd("Graph", "name", "benigngraph", func(env *c20Env, s string) { env.pgdb.Graph(s) })
 	out = append(out, c20Entry{Name: "esql.Graph:name", Benign: "g", Call: func(env *c20Env, s string) { env.esdb.Graph(s) }})
+	// existing-sql ids are table:key - the hostile string as the table part (checked against the
+	// configured tables before any statement is built)
+	tbl := func(h string) string { return h + ":7" }
+	eadd := func(fn, benign string, call func(g gdbi.GraphInterface, s string)) {
+		out = append(out, c20Entry{Name: "esql." + fn + ":table", Benign: benign + ":7", Wrap: tbl, Call: func(env *c20Env, s string) { call(env.es, s) }})
+	}
+	eadd("GetVertex", "users", func(g gdbi.GraphInterface, s string) { g.GetVertex(s, true); g.GetVertex(s, false) })
+	eadd("GetEdge", "purchases", func(g gdbi.GraphInterface, s string) { g.GetEdge(s, true); g.GetEdge(s, false) })
+	eadd("GetVertexChannel", "users", func(g gdbi.GraphInterface, s string) { drain(g.GetVertexChannel(ctx, lookups(s), true)) })
+	eadd("GetOutChannel", "users", func(g gdbi.GraphInterface, s string) { drain(g.GetOutChannel(ctx, lookups(s), true, false, nil)) })
+	eadd("GetInChannel", "users", func(g gdbi.GraphInterface, s string) { drain(g.GetInChannel(ctx, lookups(s), true, false, nil)) })
+	eadd("GetOutEdgeChannel", "users", func(g gdbi.GraphInterface, s string) { drain(g.GetOutEdgeChannel(ctx, lookups(s), true, false, nil)) })
+	eadd("GetInEdgeChannel", "users", func(g gdbi.GraphInterface, s string) { drain(g.GetInEdgeChannel(ctx, lookups(s), true, false, nil)) })
 	return out
 }
 
